@@ -649,3 +649,175 @@ def c29(pid, spec, tier, seed):
     drv_lines(pid, lines, res, 'histories')
     res['samples'] = lines[:2] + [l for l in lines if 'TBgErr' in l][:1]
     return res
+
+
+PAROL_BIN = os.path.join(lsp.VERIF, 'target', 'ls', 'debug', 'parol')
+
+
+def build_parol_bin():
+    env = dict(os.environ, CARGO_NET_OFFLINE='true', CARGO_TARGET_DIR=os.path.join(lsp.VERIF, 'target', 'ls'), RUSTFLAGS='--cfg parol_verif')
+    p = subprocess.run('cargo build -p parol --bin parol --offline', shell=True, cwd='/repo', env=env,
+                       stdout=subprocess.PIPE, stderr=subprocess.STDOUT, text=True, timeout=3000)
+    if p.returncode != 0:
+        raise cl.MachineryError('parol binary build failed:\n' + p.stdout[-3000:])
+
+
+def tie_grammars(rng, n):
+    """Grammars with prefix-group ties (several equally large groups of alternatives sharing a first symbol)."""
+    out = []
+    out.append(('tie-witness', '%start A\n%%\nA: "a" "b" | "a" "c" | "d" "e" | "d" "f";\n'))
+    out.append(('tie-witness-2', '%start S\n%%\nS: A B;\nA: "a" "b" | "a" "c" | "d" "e" | "d" "f" | "g";\nB: "x" A | "x" B | "y" A | "y" "z";\n'))
+    for i in range(n):
+        nts = ['S', 'T', 'U'][:rng.randint(1, 3)]
+        s = '%start S\n%%\n'
+        for nt in nts:
+            heads = rng.sample(['"a"', '"b"', '"c"', '"d"', "'e'"], rng.randint(2, 4))
+            alts = []
+            for h in heads:
+                for j in range(rng.randint(1, 3)):
+                    tail = ' '.join(rng.choice(['"x"', '"y"', '"z"', rng.choice(nts)]) for _ in range(rng.randint(1, 2)))
+                    alts.append(h + ' ' + tail + ' "%d"' % j)
+            rng.shuffle(alts)
+            s += nt + ': ' + ' | '.join(dict.fromkeys(alts)) + ';\n'
+        out.append(('tie-gen-%d' % i, s))
+    return out
+
+
+def c24(pid, spec, tier, seed):
+    """Byte-identical generated files from several separate parol processes."""
+    build_parol_bin()
+    res = new_result()
+    rng = random.Random(seed ^ 0x24)
+    wdir = os.path.join(cl.WORK, pid, 'gen')
+    shutil_rm(wdir)
+    os.makedirs(wdir)
+    gs = tie_grammars(rng, 40 if tier == 'thorough' else 10)
+    cs = corpus()
+    rng.shuffle(cs)
+    gs += cs if tier == 'thorough' else cs[:25]
+    nproc = 12 if tier == 'thorough' else 5
+    from concurrent.futures import ThreadPoolExecutor
+
+    def one(job):
+        gi, (name, text), r = job
+        d = os.path.join(wdir, 'g%d_r%d' % (gi, r))
+        os.makedirs(d)
+        par = os.path.join(d, 'g.par')
+        open(par, 'w').write(text)
+        cmd = [PAROL_BIN, '-f', par, '-p', os.path.join(d, 'parser.rs'), '-a', os.path.join(d, 'trait.rs'), '-t', 'Gr', '-m', 'gr',
+               '-e', os.path.join(d, 'exp.par'), '-k', '3']
+        p = subprocess.run(cmd, stdout=subprocess.PIPE, stderr=subprocess.STDOUT, text=True, timeout=300)
+        files = {}
+        for fn in ('parser.rs', 'trait.rs', 'exp.par'):
+            fp = os.path.join(d, fn)
+            files[fn] = open(fp, 'rb').read() if os.path.exists(fp) else None
+        return gi, r, p.returncode, files
+
+    jobs = [(gi, g, r) for gi, g in enumerate(gs) for r in range(nproc)]
+    with ThreadPoolExecutor(max_workers=cl.NCPU) as ex:
+        outs = list(ex.map(one, jobs))
+    by = {}
+    for gi, r, rc, files in outs:
+        by.setdefault(gi, []).append((r, rc, files))
+    for gi, (name, text) in enumerate(gs):
+        runs = sorted(by[gi])
+        res['evaluations'] += 1
+        case = json.dumps(dict(name=name, text=text, processes=nproc))
+        rcs = set(rc for _, rc, _ in runs)
+        if all(f is None for _, _, fs in runs for f in fs.values()):
+            res['skipped'] += 1
+            res['skip_reasons']['parol rejects the grammar'] = res['skip_reasons'].get('parol rejects the grammar', 0) + 1
+            continue
+        diff = [fn for fn in ('parser.rs', 'trait.rs', 'exp.par') if len(set(fs[fn] for _, _, fs in runs)) > 1]
+        if len(rcs) > 1:
+            fail(res, 'verdict-differs-between-processes', 'exit codes %s' % sorted(rcs), case)
+        elif diff:
+            fail(res, 'output-differs:' + '+'.join(diff), 'generated files differ between processes: %s' % diff, case)
+        else:
+            res['ok'] += 1
+            if name.startswith('tie') or 'Suffix' in (runs[0][2]['exp.par'] or b'').decode('utf-8', 'replace'):
+                res['nontrivial'].add(hashlib.md5(case.encode()).digest())
+            if len(res['samples']) < 2:
+                res['samples'].append(dict(name=name, text=text[:200], processes=nproc))
+    shutil_rm(wdir)
+    return res
+
+
+def shutil_rm(d):
+    import shutil
+    shutil.rmtree(d, ignore_errors=True)
+
+
+def gen_annotated(rng):
+    """PAR texts exercising declarations and annotations for the render round trip."""
+    s = '%start S\n'
+    if rng.random() < 0.4: s += '%%title "T %d"\n' % rng.randint(0, 9)
+    if rng.random() < 0.4: s += '%comment "C"\n'
+    if rng.random() < 0.3: s += "%grammar_type 'LALR(1)'\n"
+    if rng.random() < 0.3: s += '%user_type Num = crate::types::Num\n'
+    if rng.random() < 0.2: s += '%nt_type B = crate::types::Bee\n'
+    if rng.random() < 0.2: s += '%t_type crate::types::Tok\n'
+    if rng.random() < 0.4: s += "%line_comment '//'\n"
+    if rng.random() < 0.3: s += "%block_comment '/*' '*/'\n"
+    if rng.random() < 0.3: s += '%auto_newline_off\n'
+    if rng.random() < 0.2: s += '%auto_ws_off\n'
+    if rng.random() < 0.3: s += '%allow_unmatched\n'
+    sc = rng.random() < 0.5
+    on = sc and rng.random() < 0.6
+    skip = rng.random() < 0.3
+    if skip: s += '%skip Ws\n'
+    if on: s += '%on Quote %enter Str\n'
+    if sc:
+        s += '%scanner Str {\n'
+        if rng.random() < 0.5: s += '    %auto_newline_off\n'
+        if rng.random() < 0.5: s += '    %auto_ws_off\n'
+        if rng.random() < 0.4: s += '    %allow_unmatched\n'
+        if on: s += '    %on Quote %' + rng.choice(['enter INITIAL', 'pop']) + '\n'
+        s += '}\n'
+    s += '%%\n'
+    t = ['"a"', "'b'", '/c+/', '"d"^', "'e'@el", '"n": Num' if 'Num =' in s else '"n"', '"x" ?= "y"', "'z' ?! /q/"]
+    s += 'S: ' + rng.choice(t) + ' B' + rng.choice(['', '^', '@bee']) + (' Quote' if on else '') + ' { ' + rng.choice(t) + ' } [ B ] ( ' + rng.choice(t) + ' | B );\n'
+    s += 'B: ' + rng.choice(t) + (' | <Str> "in"' if sc else '') + (' | <INITIAL, Str> "both"' if sc and rng.random() < 0.5 else '') + ' | ;\n'
+    if on: s += 'Quote: <INITIAL, Str> "\\u{22}";\n'
+    if skip: s += 'Ws: /[ \\t]+/;\n'
+    return s
+
+
+def c25(pid, spec, tier, seed):
+    """render -> parse round trip of grammar configurations, through parol's real functions."""
+    res = new_result()
+    rng = random.Random(seed ^ 0x25)
+    wdir = os.path.join(cl.WORK, pid)
+    cs = corpus()
+    rng.shuffle(cs)
+    texts = [t for _, t in (cs if tier == 'thorough' else cs[:80])]
+    texts += [gen_annotated(rng) for _ in range(3000 if tier == 'thorough' else 300)]
+    texts += [gen_grammar(rng, comments=False) for _ in range(1000 if tier == 'thorough' else 100)]
+    path = os.path.join(wdir, 'rt.jsonl')
+    open(path, 'w').write('\n'.join(json.dumps(t) for t in texts) + '\n')
+    p = subprocess.run([cl.PV, 'roundtrip', path], stdout=subprocess.PIPE, stderr=subprocess.DEVNULL, text=True, env=cl.ENV, timeout=3000)
+    outs = [json.loads(l) for l in p.stdout.split('\n') if l.startswith('{')]
+    if len(outs) != len(texts):
+        raise cl.MachineryError('pv roundtrip returned %d results for %d texts' % (len(outs), len(texts)))
+    for t, o in zip(texts, outs):
+        res['evaluations'] += 1
+        if not o['valid']:
+            res['skipped'] += 1
+            res['skip_reasons']['text rejected by parol'] = res['skip_reasons'].get('text rejected by parol', 0) + 1
+            continue
+        if o.get('panic'):
+            fail(res, 'panic', 'render/read panicked', json.dumps(dict(text=t)))
+            continue
+        bad = [r for r in o['results'] if r['status'] != 'same']
+        if bad:
+            r = bad[0]
+            key = ('roundtrip-differs:' + '+'.join(r.get('fields', []))) if r['status'] == 'differs' else r['status']
+            fail(res, key, '%s grammar: %s %s' % (r['variant'], r['status'], r.get('detail', r.get('fields', ''))), json.dumps(dict(text=t, rendered=r.get('rendered'))))
+        else:
+            res['ok'] += 1
+            if any(d in t for d in ('%scanner', '%allow_unmatched', '@', '^', '%auto', '%skip', '%on', ': ')):
+                res['nontrivial'].add(hashlib.md5(t.encode()).digest())
+                if len(res['samples']) < 2:
+                    res['samples'].append(t[:300])
+            res['dist']['variants-%d' % len(o['results'])] = res['dist'].get('variants-%d' % len(o['results']), 0) + 1
+    return res
